@@ -94,7 +94,8 @@ BidiCfg ==
                                                        !.flip = TRUE]]] >>,
      !.axinfo = [ABS_X |-> [min |-> -8, max |-> 7], ABS_Y |-> [min |-> 0, max |-> 8]]]
 
-\* C08: a hat, an unsigned flipped 9-level stick and a signed stick without negative note
+\* C08: a hat, an unsigned flipped 9-level stick, a signed stick without negative note and an unsigned
+\* trigger without negative note (its rest position 0 is the unassigned side)
 AKeyCfg ==
   [BaseCfg EXCEPT
      !.actions = Restrict(StateActs, {"KEY_F1", "KEY_F2", "KEY_F5", "KEY_F6"}),
@@ -103,9 +104,10 @@ AKeyCfg ==
                                                            !.bidi = TRUE, !.dzn = 0],
                             ABS_Z |-> [AxisDflt EXCEPT !.type = "key", !.note = 64, !.noteNeg = 65, !.bidi = TRUE,
                                                        !.flip = TRUE, !.dzn = 0],
-                            ABS_RX |-> [AxisDflt EXCEPT !.type = "key", !.note = 127, !.off = 15, !.dzn = 0]]] >>,
+                            ABS_RX |-> [AxisDflt EXCEPT !.type = "key", !.note = 127, !.off = 15, !.dzn = 0],
+                            ABS_GAS |-> [AxisDflt EXCEPT !.type = "key", !.note = 30, !.dzn = 0]]] >>,
      !.axinfo = [ABS_HAT0X |-> [min |-> -1, max |-> 1], ABS_Z |-> [min |-> 0, max |-> 8],
-                 ABS_RX |-> [min |-> -4, max |-> 4]]]
+                 ABS_RX |-> [min |-> -4, max |-> 4], ABS_GAS |-> [min |-> 0, max |-> 8]]]
 
 \* C06 (model level): one axis of each transmitting kind on small ranges
 AxisCfg ==
